@@ -45,6 +45,16 @@ func jsonKeyLess(a, b string) bool {
 
 // newJSONObject builds an object from pairs in input order: duplicate keys keep the LAST value.
 func newJSONObject(keys []string, vals []JSON) JSON {
+	sorted := true
+	for i := 1; i < len(keys); i++ {
+		if !jsonKeyLess(keys[i-1], keys[i]) {
+			sorted = false
+			break
+		}
+	}
+	if sorted { // already in jsonb order without duplicates
+		return JSON{Kind: JSONObject, Keys: keys, Vals: vals}
+	}
 	idx := make([]int, len(keys))
 	for i := range idx {
 		idx[i] = i
